@@ -1,10 +1,243 @@
 package main
 
+import (
+	"fmt"
+	"go/constant"
+	"go/types"
+	"sort"
+
+	"golang.org/x/tools/go/ssa"
+)
+
 func init() {
 	register("C12", rulesC12)
 }
 
 func rulesC12(c *Ctx) {
+	p := c.P
 	n := mapOrder(c, "C12.order", nil)
 	c.Floor("C12.order", n, 8)
+
+	// ---- sort key total ----
+	c.Rule("C12.sortkey", "the sort that fixes the expansion order compares every field of its element type (VarRefs.Less looks at both Val and Type): equal keys are equal elements, so the sorted order does not depend on the order the map was iterated in")
+	if less := p.Method("VarRefs", "Less"); less != nil {
+		sf := p.SSAFunc(less)
+		elem := p.Named("VarRef")
+		st, _ := elem.Underlying().(*types.Struct)
+		seen := map[string]bool{}
+		if sf != nil && st != nil {
+			for _, b := range sf.Blocks {
+				for _, in := range b.Instrs {
+					if fa, ok := in.(*ssa.FieldAddr); ok {
+						if t, ok := fa.X.Type().Underlying().(*types.Pointer); ok && types.Identical(t.Elem(), elem) {
+							seen[st.Field(fa.Field).Name()] = true
+						}
+					}
+				}
+			}
+			for i := 0; i < st.NumFields(); i++ {
+				f := st.Field(i).Name()
+				c.Check(seen[f], "C12.sortkey", "VarRefs.Less compares VarRef."+f, less.Pos(), "field "+f+" is not part of the sort key: two columns that differ only in it sort in map-iteration order")
+			}
+		}
+	} else {
+		c.Unk("C12.sortkey", "VarRefs.Less", 0, "anchor not found")
+	}
+
+	// ---- type precedence is a strict chain ----
+	c.Rule("C12.precedence", "DataType.LessThan, extracted by constant propagation over all pairs of data types, is a strict total order on the known types (irreflexive, antisymmetric, transitive, total) with Unknown below everything: only then is `if cur.LessThan(t) { cur = t }` a maximum, independent of the order sources and map entries are visited in")
+	lt := p.Method("DataType", "LessThan")
+	dt := p.Named("DataType")
+	if lt == nil || dt == nil {
+		c.Unk("C12.precedence", "DataType.LessThan", 0, "anchor not found")
+	} else {
+		type dtc struct {
+			name string
+			v    int64
+		}
+		var dts []dtc
+		sc := p.Types.Scope()
+		for _, n := range sc.Names() {
+			if k, ok := sc.Lookup(n).(*types.Const); ok && types.Identical(k.Type(), dt) {
+				v, _ := constant.Int64Val(k.Val())
+				dts = append(dts, dtc{n, v})
+			}
+		}
+		sort.Slice(dts, func(i, j int) bool { return dts[i].v < dts[j].v })
+		s := p.newSCCP()
+		less := map[[2]string]bool{}
+		okAll := true
+		for _, a := range dts {
+			for _, b := range dts {
+				r, ok := s.evalConstBool(lt, cConst(constant.MakeInt64(a.v)), cConst(constant.MakeInt64(b.v)))
+				if !ok {
+					c.Unk("C12.precedence", fmt.Sprintf("%s.LessThan(%s)", a.name, b.name), lt.Pos(), "not a constant function of the two types")
+					okAll = false
+				}
+				less[[2]string{a.name, b.name}] = r
+			}
+		}
+		if okAll {
+			var known []string
+			for _, a := range dts {
+				if a.name != "Unknown" {
+					known = append(known, a.name)
+				}
+			}
+			for _, a := range known {
+				c.Check(!less[[2]string{a, a}], "C12.precedence", "irreflexive: "+a, lt.Pos(), a+".LessThan("+a+") is true: a type would replace itself")
+				c.Check(less[[2]string{"Unknown", a}] && !less[[2]string{a, "Unknown"}], "C12.precedence", "Unknown below "+a, lt.Pos(), "Unknown must have the lowest precedence")
+				for _, b := range known {
+					if a >= b {
+						continue
+					}
+					ab, ba := less[[2]string{a, b}], less[[2]string{b, a}]
+					c.Check(ab != ba, "C12.precedence", "total and antisymmetric: "+a+" / "+b, lt.Pos(), fmt.Sprintf("%s<%s=%v and %s<%s=%v: the merge result depends on which is seen first", a, b, ab, b, a, ba))
+				}
+			}
+			// transitivity
+			bad := ""
+			for _, a := range known {
+				for _, b := range known {
+					for _, d := range known {
+						if less[[2]string{a, b}] && less[[2]string{b, d}] && !less[[2]string{a, d}] {
+							bad = a + " < " + b + " < " + d + " but not " + a + " < " + d
+						}
+					}
+				}
+			}
+			c.Check(bad == "", "C12.precedence", "transitive", lt.Pos(), bad)
+		}
+		c.Floor("C12.precedence", len(dts), 9)
+	}
+
+	// ---- merge idiom ----
+	c.Rule("C12.merge", "wherever a type is merged with `x.LessThan(y)`, the value kept on the true branch is the argument y, written to the place x was read from (a maximum); keeping the receiver, or testing the candidate as receiver, keeps the lowest type instead")
+	nMerge := 0
+	ltSSA := p.SSAFunc(lt)
+	for _, f := range p.allSSAFuncs() {
+		for _, b := range f.Blocks {
+			ifi, ok := b.Instrs[len(b.Instrs)-1].(*ssa.If)
+			if !ok {
+				continue
+			}
+			call, ok := ifi.Cond.(*ssa.Call)
+			if !ok || call.Call.StaticCallee() != ltSSA || ltSSA == nil {
+				continue
+			}
+			recv, arg := call.Call.Args[0], call.Call.Args[1]
+			tb := b.Succs[0]
+			// what does the true branch store?
+			for _, in := range tb.Instrs {
+				var stored ssa.Value
+				var sameLoc bool
+				switch x := in.(type) {
+				case *ssa.MapUpdate:
+					stored = x.Value
+					if lk, ok := recv.(*ssa.Lookup); ok && lk.X == x.Map && lk.Index == x.Key {
+						sameLoc = true
+					}
+				case *ssa.Store:
+					stored = x.Val
+					if ld, ok := recv.(*ssa.UnOp); ok && ld.X == x.Addr {
+						sameLoc = true
+					}
+				default:
+					continue
+				}
+				nMerge++
+				key := fmt.Sprintf("%s: LessThan-guarded store #%d", ssaFuncName(f), nMerge)
+				switch {
+				case stored == arg && sameLoc:
+					c.OK("C12.merge", key, call.Pos(), "keeps the argument when the current value is lower")
+				case stored == recv:
+					c.Bad("C12.merge", key, call.Pos(), "keeps the receiver of LessThan on the true branch: the lower type wins")
+				case stored == arg && !sameLoc:
+					c.Bad("C12.merge", key, call.Pos(), "tests one location and overwrites another: the candidate is the receiver, so the lower type wins")
+				default:
+					c.Unk("C12.merge", key, call.Pos(), "a LessThan-guarded store this rule does not understand")
+				}
+			}
+		}
+	}
+	// phi-style merges: cur = t under cur.LessThan(t) on a local variable
+	for _, f := range p.allSSAFuncs() {
+		for _, b := range f.Blocks {
+			for _, in := range b.Instrs {
+				phi, ok := in.(*ssa.Phi)
+				if !ok || dt == nil || !types.Identical(phi.Type(), dt) {
+					continue
+				}
+				for i, e := range phi.Edges {
+					pred := b.Preds[i]
+					// the edge comes from the true branch of a LessThan test?
+					for _, pp := range pred.Preds {
+						ifi, ok := pp.Instrs[len(pp.Instrs)-1].(*ssa.If)
+						if !ok || pp.Succs[0] != pred {
+							continue
+						}
+						call, ok := ifi.Cond.(*ssa.Call)
+						if !ok || call.Call.StaticCallee() != ltSSA || ltSSA == nil {
+							continue
+						}
+						nMerge++
+						key := fmt.Sprintf("%s: LessThan-guarded assignment #%d", ssaFuncName(f), nMerge)
+						if e == call.Call.Args[1] {
+							c.OK("C12.merge", key, call.Pos(), "keeps the argument when the current value is lower")
+						} else if e == call.Call.Args[0] {
+							c.Bad("C12.merge", key, call.Pos(), "keeps the receiver of LessThan on the true branch: the lower type wins")
+						}
+					}
+				}
+			}
+		}
+	}
+	c.Floor("C12.merge", nMerge, 2)
+
+	// ---- the field set is only ever read ----
+	c.Rule("C12.fieldset", "RewriteFields never removes entries from the schema's field set; it removes entries from the dimension set only when there is no dimension wildcard (tags the statement already groups by are left out of the fields)")
+	rf := p.SSAFunc(p.Method("SelectStatement", "RewriteFields"))
+	fdim := p.SSAFunc(p.Func("FieldDimensions"))
+	if rf == nil || fdim == nil {
+		c.Unk("C12.fieldset", "(*SelectStatement).RewriteFields", 0, "anchor not found")
+	} else {
+		nDel := 0
+		for _, b := range rf.Blocks {
+			for _, in := range b.Instrs {
+				call, ok := in.(*ssa.Call)
+				if !ok {
+					continue
+				}
+				bi, ok := call.Call.Value.(*ssa.Builtin)
+				if !ok || bi.Name() != "delete" {
+					continue
+				}
+				which := "?"
+				var src ssa.Value = call.Call.Args[0]
+				for hops := 0; hops < 4; hops++ {
+					if phi, ok := src.(*ssa.Phi); ok && len(phi.Edges) > 0 {
+						src = phi.Edges[0]
+						continue
+					}
+					break
+				}
+				if _, isLocal := src.(*ssa.MakeMap); isLocal {
+					continue // a map built by this call
+				}
+				if ex, ok := src.(*ssa.Extract); ok {
+					if cc, ok := ex.Tuple.(*ssa.Call); ok && cc.Call.StaticCallee() == fdim {
+						which = []string{"field set", "dimension set", "error"}[ex.Index]
+					}
+				}
+				nDel++
+				key := fmt.Sprintf("(*SelectStatement).RewriteFields: delete #%d from the %s", nDel, which)
+				c.Check(which == "dimension set", "C12.fieldset", key, call.Pos(), "entries are deleted from the "+which+": a schema column disappears from the expansion")
+			}
+		}
+		c.Floor("C12.fieldset", nDel, 1)
+	}
+
+	// ---- clone first ----
+	c.Rule("C12.clonefirst", "RewriteFields works on a clone: no store reaches memory of its receiver or of the mapper")
+	readonly(c, "C12.clonefirst", func(f *types.Func) bool { return FuncName(f) == "(*SelectStatement).RewriteFields" })
 }
